@@ -371,6 +371,14 @@ class ExecMixin:
             else:
                 cargs = []
             return self.call_closure(st, site, args[0], cargs)
+        if func["name"].startswith("std::ops::Fn") and args:
+            # call through a generic F: Fn*(..) parameter: dispatch on the abstract callee value
+            cv = args[0]
+            tv = self.load(st, cv.cell, cv.path) if isinstance(cv, VRef) else cv
+            if isinstance(tv, (VClosure, VFn)):
+                tup = args[1] if len(args) > 1 else UNIT
+                cargs = list(tup.variants.get(0, ())) if isinstance(tup, VAdt) else []
+                return self.call_closure(st, site, cv if isinstance(cv, VRef) else tv, cargs)
         if target.get("local") and target["key"] in self.fx.fns:
             return self.call_local(st, site, target["key"], args)
         if func.get("local") and func["key"] in self.fx.fns and "trait" not in func:
@@ -479,8 +487,9 @@ class ExecMixin:
         final recorded pass.  Returns {'ret': [...], 'exit': [(st, bb)]}"""
         self.stats["loops"] += 1
         lid = (frame.key, head)
-        if self.opts.get("unroll") or self.small_array_loop(frame, st0, head):
-            r = self.try_unroll(frame, st0, head, loopset)
+        small = self.small_array_loop(frame, st0, head)
+        if self.opts.get("unroll") or small:
+            r = self.try_unroll(frame, st0, head, loopset, max_width=(64 if small else 3))
             if r is not None:
                 return r
         havoc = {}          # (cell, keypath) -> (sym or None, kind)
@@ -590,6 +599,15 @@ class ExecMixin:
             for _ in range(2):
                 if isinstance(v, VRef):
                     v = self.load(s, v.cell, v.path)
+            # look through adaptors (filter, map, enumerate, ...) to the source
+            for _ in range(6):
+                if isinstance(v, VIter) and v.kind in ("filter", "map", "filter_map", "flatten", "copied", "enumerate", "take") and isinstance(v.src, VIter):
+                    v = v.src
+                elif isinstance(v, VIter) and v.kind == "zip2":
+                    a, b = v.src
+                    v = a if (isinstance(a, VIter) and a.kind == "array") else b
+                else:
+                    break
             return isinstance(v, VIter) and v.kind == "array" and isinstance(v.pos, int) and v.items is not None \
                 and len(v.items) - v.pos <= 8
         except Abort:
@@ -799,11 +817,24 @@ class ExecMixin:
                 yield from self.diff(st, v0.elems[i], vb.elems[i], kp + (("e", i),))
             return
         if isinstance(v0, VIter):
-            if isinstance(v0.pos, Lin) and isinstance(vb.pos, Lin) and v0.kind == vb.kind:
+            if not isinstance(vb, VIter) or v0.kind != vb.kind:
+                yield (kp, "any")
+                return
+            if isinstance(v0.pos, Lin) and isinstance(vb.pos, Lin):
                 if not self.same_lin(st, v0.pos, vb.pos):
                     yield (kp + (("ipos",),), "int")
+                if isinstance(v0.items, Lin) and isinstance(vb.items, Lin) and not self.same_lin(st, v0.items, vb.items):
+                    yield (kp + (("ilen",),), "int")
+            elif v0.items != vb.items or v0.pos != vb.pos:
+                yield (kp, "any")
                 return
-            if v0.kind != vb.kind or v0.items != vb.items or v0.pos != vb.pos or v0.src != vb.src:
+            # nested iterators (adaptors) and the slice an iterator walks
+            kids0 = dict(children(v0))
+            kidsb = dict(children(vb))
+            for key in kids0:
+                if key[0] in ("isrc", "isl") and key in kidsb:
+                    yield from self.diff(st, kids0[key], kidsb[key], kp + (key,))
+            if not any(k[0] in ("isrc", "isl") for k in kids0) and not isinstance(v0.pos, Lin) and v0.src != vb.src:
                 yield (kp, "any")
             return
         if isinstance(v0, (VUnknown,)):
